@@ -69,6 +69,12 @@ type Type struct {
 	Val    *Attr    `json:"val,omitempty"`    // Map
 	Fields []*Field `json:"fields,omitempty"` // Object, Union (alternatives)
 	User   string   `json:"user,omitempty"`   // User: name of the type in Design.Types
+	// Extend / Reference (inline objects only; user types carry theirs in
+	// UserType): the object is written with Extend(T) / Reference(T) first.
+	// The inherited attributes are listed in Fields like any other (so that
+	// every oracle sees the effective object) and marked with Field.Inherit.
+	Extend    string `json:"extend,omitempty"`
+	Reference string `json:"reference,omitempty"`
 }
 
 // Field is a named attribute of an object (or an alternative of a union).
@@ -80,6 +86,11 @@ type Field struct {
 	Tag int `json:"tag,omitempty"`
 	// ErrName marks the attribute holding the error name of a custom error type (ErrorName DSL).
 	ErrName bool `json:"err_name,omitempty"`
+	// Inherit: "extend" = the attribute comes from the type named by Extend
+	// and is not written again (its requiredness comes along);
+	// "reference" = written as a bare Attribute("name") whose type,
+	// validations and default come from the type named by Reference.
+	Inherit string `json:"inherit,omitempty"`
 }
 
 // Validation holds the validation keywords of an attribute.
@@ -301,14 +312,14 @@ type Service struct {
 	Errors   []*ErrorDef   `json:"errors,omitempty"`
 	Security []Requirement `json:"security,omitempty"`
 	// HTTP level
-	BasePath  string           `json:"base_path,omitempty"`
+	BasePath string `json:"base_path,omitempty"`
 	// MoreBasePaths: further Path(...) calls of the service HTTP expression (only with BasePath set):
 	// every route and file server of the service is mounted under each base path
 	MoreBasePaths []string         `json:"more_base_paths,omitempty"`
 	ErrorResp     []*ErrorResponse `json:"error_resp,omitempty"`
 	Files         []FileServer     `json:"files,omitempty"`
-	HasHTTP   bool             `json:"has_http,omitempty"`
-	HasGRPC   bool             `json:"has_grpc,omitempty"`
+	HasHTTP       bool             `json:"has_http,omitempty"`
+	HasGRPC       bool             `json:"has_grpc,omitempty"`
 	// Meta written in the service body (openapi tags, extensions ...)
 	Meta [][]string `json:"meta,omitempty"`
 }
